@@ -4,7 +4,7 @@
 use std::cell::Cell;
 use std::collections::HashMap;
 use std::panic::Location;
-use std::sync::atomic::{AtomicBool, AtomicU64, Ordering};
+use std::sync::atomic::{AtomicBool, AtomicU64, AtomicUsize, Ordering};
 use std::sync::{Arc, Condvar, Mutex, MutexGuard};
 
 #[derive(Clone, Copy, Debug, PartialEq)]
@@ -87,6 +87,219 @@ thread_local! { static TID: Cell<usize> = const { Cell::new(usize::MAX) }; }
 
 /// key used for stall faults
 const STALL_KEY: usize = 3;
+
+// ---------------------------------------------------------------------------------------
+// store buffering ("weak" cases): a non-SeqCst store to one of may's atomics may stay in
+// the storing thread's (one entry) store buffer while that thread executes up to SB_LOADS
+// later loads from other locations, i.e. the store is re-ordered after those loads - the
+// one re-ordering x86-TSO performs and the Rust memory model allows for Release stores /
+// Acquire loads. while a store is buffered its thread sees the new value and every other
+// thread the old one:
+//   mode A  memory holds the new value (so the owner's plain reads, moves and drops of the
+//           object are right) and the hooked loads of other threads are answered with the
+//           old value;
+//   mode B  entered when another thread read-modify-writes the location: memory is put back
+//           to the old value, the other thread operates on that, and the buffered value is
+//           written when the buffer drains (the store is ordered after the RMW).
+// the buffer drains before anything else its thread does (any hooked operation that is not
+// a load, blocking, stall fault, end of the thread, harness boundaries), when SB_AGE
+// schedule points have passed, and globally before any deallocation (nothing is written
+// back into freed memory). only the thread holding the baton touches this state.
+// ---------------------------------------------------------------------------------------
+const SB_THREADS: usize = 64;
+const SB_LOADS: u8 = 2;
+const SB_AGE: u64 = 24;
+#[derive(Clone, Copy)]
+struct Pending {
+    addr: usize,
+    old: u64,
+    new: u64,
+    width: u8,
+    mode_b: bool,
+    loads: u8,
+    step: u64,
+}
+struct Sb(std::cell::UnsafeCell<[Option<Pending>; SB_THREADS]>);
+unsafe impl Sync for Sb {}
+static SB: Sb = Sb(std::cell::UnsafeCell::new([None; SB_THREADS]));
+static SB_PENDING: AtomicUsize = AtomicUsize::new(0);
+static WEAK: AtomicBool = AtomicBool::new(false);
+/// mirror of `Sched::cur` for code that must not take the scheduler lock
+static CUR: AtomicUsize = AtomicUsize::new(0);
+static SB_STEP: AtomicU64 = AtomicU64::new(0);
+static SB_DELAYED: AtomicU64 = AtomicU64::new(0);
+
+/// store buffering on/off for this case (set before the exploration starts)
+pub fn set_weak(on: bool) {
+    WEAK.store(on, Ordering::SeqCst);
+}
+
+/// number of stores that were re-ordered after at least one later load
+pub fn sb_delayed() -> u64 {
+    SB_DELAYED.load(Ordering::SeqCst)
+}
+
+#[allow(clippy::mut_from_ref)]
+fn sb() -> &'static mut [Option<Pending>; SB_THREADS] {
+    unsafe { &mut *SB.0.get() }
+}
+
+fn mem_read(addr: usize, width: u8) -> u64 {
+    unsafe {
+        match width {
+            1 => (*(addr as *const std::sync::atomic::AtomicU8)).load(Ordering::SeqCst) as u64,
+            _ => (*(addr as *const AtomicU64)).load(Ordering::SeqCst),
+        }
+    }
+}
+
+fn mem_write(addr: usize, width: u8, bits: u64) {
+    unsafe {
+        match width {
+            1 => (*(addr as *const std::sync::atomic::AtomicU8)).store(bits as u8, Ordering::SeqCst),
+            _ => (*(addr as *const AtomicU64)).store(bits, Ordering::SeqCst),
+        }
+    }
+}
+
+/// the buffered store of thread `t` becomes visible to everybody
+fn sb_commit(t: usize) {
+    if t < SB_THREADS {
+        if let Some(p) = sb()[t].take() {
+            SB_PENDING.fetch_sub(1, Ordering::Relaxed);
+            if p.mode_b {
+                mem_write(p.addr, p.width, p.new);
+            }
+            if p.loads > 0 {
+                SB_DELAYED.fetch_add(1, Ordering::Relaxed);
+            }
+            if TRACE.load(Ordering::Relaxed) {
+                eprintln!("   T{t} buffered store to {:x} ({} -> {}) visible after {} loads{}", p.addr, p.old, p.new, p.loads, if p.mode_b { ", written back" } else { "" });
+            }
+        }
+    }
+}
+
+fn sb_commit_all() {
+    if SB_PENDING.load(Ordering::Relaxed) != 0 {
+        for t in 0..SB_THREADS {
+            sb_commit(t);
+        }
+    }
+}
+
+/// the entry of another thread for this address, if any
+fn sb_other(me: usize, addr: usize) -> Option<usize> {
+    if SB_PENDING.load(Ordering::Relaxed) == 0 {
+        return None;
+    }
+    (0..SB_THREADS).find(|&t| t != me && sb()[t].is_some_and(|p| p.addr == addr))
+}
+
+/// drain the calling thread's store buffer (harness boundaries, fences)
+pub fn flush_own() {
+    if SB_PENDING.load(Ordering::Relaxed) != 0 {
+        let me = tid();
+        if me == CUR.load(Ordering::Relaxed) {
+            sb_commit(me);
+        }
+    }
+}
+
+/// called by the allocator before memory is freed: nothing may be written back into it
+/// later, and no entry may outlive the object it belongs to
+pub fn flush_before_free(ptr: usize, size: usize) {
+    if SB_PENDING.load(Ordering::Relaxed) != 0 && tid() == CUR.load(Ordering::Relaxed) {
+        for t in 0..SB_THREADS {
+            if sb()[t].is_some_and(|p| p.addr >= ptr && p.addr < ptr + size) {
+                sb_commit(t);
+            }
+        }
+    }
+}
+
+fn store_hook(addr: usize, bits: u64, width: u8, seq_cst: bool, loc: &'static Location<'static>) -> bool {
+    let normal = point_inner(loc);
+    if !WEAK.load(Ordering::Relaxed) {
+        return false;
+    }
+    let me = tid();
+    // program order among the stores of one thread, coherence order among stores to one location
+    sb_commit(me);
+    if let Some(t) = sb_other(me, addr) {
+        sb_commit(t);
+    }
+    if normal && !seq_cst && me < SB_THREADS {
+        let old = mem_read(addr, width);
+        sb()[me] = Some(Pending { addr, old, new: bits, width, mode_b: false, loads: 0, step: SB_STEP.load(Ordering::Relaxed) });
+        SB_PENDING.fetch_add(1, Ordering::Relaxed);
+    }
+    // the shim writes the new value to memory (mode A)
+    false
+}
+
+fn load_hook(addr: usize, width: u8, loc: &'static Location<'static>) -> Option<u64> {
+    let normal = point_inner(loc);
+    if SB_PENDING.load(Ordering::Relaxed) == 0 {
+        return None;
+    }
+    let me = tid();
+    // what this thread sees at `addr` right now
+    let read = |me: usize| match sb_other(me, addr) {
+        Some(t) => {
+            let p = sb()[t].unwrap();
+            if p.mode_b {
+                None
+            } else {
+                Some(p.old)
+            }
+        }
+        None => None,
+    };
+    if me < SB_THREADS {
+        if let Some(p) = sb()[me].as_mut() {
+            if p.addr == addr {
+                // the owner sees its own store
+                return if p.mode_b { Some(p.new) } else { None };
+            }
+            if !normal || p.loads >= SB_LOADS {
+                sb_commit(me);
+            } else {
+                // the load is executed now, ahead of the buffered store. then the others get a
+                // chance to run while the store is still invisible to them (this second
+                // schedule point is what opens the store -> load re-ordering window)
+                p.loads += 1;
+                let v = read(me).unwrap_or_else(|| mem_read(addr, width));
+                point_inner(loc);
+                return Some(v);
+            }
+        }
+    }
+    read(me)
+}
+
+fn rmw_hook(addr: usize, loc: &'static Location<'static>) {
+    point_inner(loc);
+    if SB_PENDING.load(Ordering::Relaxed) == 0 {
+        return;
+    }
+    let me = tid();
+    sb_commit(me);
+    if let Some(t) = sb_other(me, addr) {
+        // the read-modify-write comes before the buffered store in the location's order
+        let p = sb()[t].as_mut().unwrap();
+        if !p.mode_b {
+            mem_write(p.addr, p.width, p.old);
+            p.mode_b = true;
+        }
+    }
+}
+
+/// every other hooked operation (queue operation, AtomicOption, ...) drains the buffer
+fn point(loc: &'static Location<'static>) {
+    point_inner(loc);
+    flush_own();
+}
 
 #[inline(never)]
 fn tid() -> usize {
@@ -330,6 +543,7 @@ fn switch_to(mut g: MutexGuard<'static, Option<Sched>>, me: usize, next: usize, 
         if next != me {
             s.switches += 1;
             s.cur = next;
+            CUR.store(next, Ordering::SeqCst);
             s.th[next].cv.notify_one();
         }
     }
@@ -342,23 +556,41 @@ fn switch_to(mut g: MutexGuard<'static, Option<Sched>>, me: usize, next: usize, 
     }
 }
 
-pub fn point(loc: &'static Location<'static>) {
+
+/// a schedule point of the calling thread. returns false if it was not a real one (scheduler
+/// not exploring, no-preempt region, unregistered thread)
+fn point_inner(loc: &'static Location<'static>) -> bool {
     let me = tid();
     if me == usize::MAX {
-        return;
+        return false;
     }
     let mut g = lock();
     let s = match g.as_mut() {
         Some(s) => s,
-        None => return,
+        None => return false,
     };
     if s.cur != me {
         // a thread that is running without the baton: harness trouble, never a verdict
         die(2, &format!("VERDICT budget harness-baton me={me} cur={}", s.cur));
     }
     if !s.exploring || s.th[me].np > 0 {
-        return;
+        return false;
     }
+    // store buffers drain with time: a buffered store of a thread that has not run for
+    // SB_AGE schedule points becomes visible now
+    if SB_PENDING.load(Ordering::Relaxed) != 0 {
+        let now = s.steps;
+        for t in 0..SB_THREADS.min(s.th.len()) {
+            if t != me {
+                if let Some(p) = sb()[t] {
+                    if now.saturating_sub(p.step) > SB_AGE {
+                        sb_commit(t);
+                    }
+                }
+            }
+        }
+    }
+    SB_STEP.store(s.steps + 1, Ordering::Relaxed);
     if TRACE.load(Ordering::Relaxed) {
         eprintln!("T{me} {}:{} clock={}", short(loc.file()), loc.line(), s.clock - T0);
     }
@@ -392,7 +624,7 @@ pub fn point(loc: &'static Location<'static>) {
     }
     if s.run_left > 0 {
         s.run_left -= 1;
-        return;
+        return true;
     }
     s.pending_stall = 0;
     let next = s.pick_next();
@@ -406,10 +638,13 @@ pub fn point(loc: &'static Location<'static>) {
             let d = s.clock + s.pending_stall;
             s.th[me].st = St::Blocked { key: STALL_KEY, deadline: Some(d), bg: false };
             s.stalls += 1;
+            // a descheduled thread's store buffer drains
+            sb_commit(me);
         }
     }
     s.pending_stall = 0;
     switch_to(g, me, next, true);
+    true
 }
 
 pub fn block(key: usize, deadline: Option<u64>, bg: bool) -> bool {
@@ -422,6 +657,8 @@ pub fn block(key: usize, deadline: Option<u64>, bg: bool) -> bool {
     if s.th[me].np != 0 {
         die(2, "VERDICT budget harness-block-inside-no-preempt");
     }
+    // a thread that goes to sleep has drained its store buffer
+    sb_commit(me);
     s.steps += 1;
     if s.steps > s.max_steps {
         s.budget();
@@ -534,6 +771,7 @@ fn timer_armed() {
     s.th[me].st = St::Blocked { key: STALL_KEY, deadline: Some(d), bg: false };
     s.stalls += 1;
     s.consec = 0;
+    sb_commit(me);
     // keep the current segment for whoever runs next
     let (run_left, pending) = (s.run_left, s.pending_stall);
     let next = s.pick_next_fair();
@@ -585,6 +823,7 @@ pub fn thread_end() {
     let me = tid();
     let mut g = lock();
     let s = g.as_mut().unwrap();
+    sb_commit(me);
     s.th[me].st = St::Finished;
     s.useful += 1;
     let key = join_key(me);
@@ -690,6 +929,10 @@ pub static HOOKS: may::verif::Hooks = may::verif::Hooks {
     yield_now,
     np_enter,
     np_exit,
+    store: store_hook,
+    load: load_hook,
+    rmw: rmw_hook,
+    flush: flush_own,
 };
 
 /// register the calling thread as thread 0 and install the hooks
@@ -757,6 +1000,7 @@ pub fn start_exploring(schedule: Vec<Seg>) {
 pub fn stop_exploring() {
     let mut g = lock();
     let s = g.as_mut().unwrap();
+    sb_commit_all();
     s.exploring = false;
 }
 
